@@ -388,14 +388,14 @@ pub enum JsonAccess {
 }
 
 impl JsonAccess {
-    pub fn from_linear(parts: Vec<JsonAccess>) -> JsonAccess {
+    pub fn from_linear(parts: Vec<JsonAccess>) -> Option<JsonAccess> {
         let mut current = None;
         for mut part in parts.into_iter().rev() {
             part.set_inner(current);
             current = Some(part);
         }
 
-        current.unwrap()
+        current
     }
 
     pub fn get_value<'a>(&self, json_value: &'a serde_json::Value) -> Option<&'a serde_json::Value> {
